@@ -111,8 +111,8 @@ func (m *C07Monitor) refresh(c *Chain, ctx sdk.Context) {
 	}
 }
 
-func (m *C07Monitor) BeforeBlock(c *Chain, ctx sdk.Context)                  { m.refresh(c, ctx); m.govTouched = false }
-func (m *C07Monitor) BeginBlockExit(c *Chain, ctx sdk.Context, err error)    { m.refresh(c, ctx) }
+func (m *C07Monitor) BeforeBlock(c *Chain, ctx sdk.Context)               { m.refresh(c, ctx); m.govTouched = false }
+func (m *C07Monitor) BeginBlockExit(c *Chain, ctx sdk.Context, err error) { m.refresh(c, ctx) }
 
 func (m *C07Monitor) AfterTx(c *Chain, ctx sdk.Context, tx sdk.Tx, ok bool) {
 	if !ok {
